@@ -1,4 +1,6 @@
 SPECIFICATION Spec
-CONSTANT DumpCases = TRUE
+CONSTANTS
+  DumpCases = TRUE
+  MoreRets = FALSE
 INVARIANTS Refines StepwiseIsPred
 CHECK_DEADLOCK FALSE
